@@ -125,6 +125,7 @@ class RefServer(object):
 
     def _serve(self, q_r, a_w):
         import os
+        import gc
 
         qf = os.fdopen(q_r, "r")
         for line in qf:
@@ -135,6 +136,7 @@ class RefServer(object):
                 code = 0
                 try:
                     os.close(r)
+                    gc.disable()  # short-lived: a collection would only copy pages
                     try:
                         res = {"ok": self.fn(req)}
                     except BaseException as e:
